@@ -100,6 +100,8 @@ func C01(r *core.Run) {
 		go func() { defer lw.Done(); c01Dependent(r, md, serverBin, agentBin) }()
 		lw.Add(1)
 		go func() { defer lw.Done(); c01LateAgent(r, md, serverBin, agentBin) }()
+		lw.Add(1)
+		go func() { defer lw.Done(); c01ProxyRestart(r, md, serverBin, agentBin) }()
 		c01ShortTimeout(r, md, serverBin, agentBin)
 		lw.Wait()
 	}()
@@ -806,4 +808,123 @@ func c01LateAgent(r *core.Run, md *fakes.Metadata, serverBin, agentBin string) {
 		}
 	}
 	judgeProcs(r, true, server, agent)
+}
+
+// c01ProxyRestart: the stand-alone proxy is restarted on its port while the
+// agent keeps running. Clients of the new proxy process are clients like any
+// other: each gets its own response, whatever IDs the old process had handed out.
+func c01ProxyRestart(r *core.Run, md *fakes.Metadata, serverBin, agentBin string) {
+	backend, err := newTokBackend()
+	if err != nil {
+		r.Broken(err.Error())
+		return
+	}
+	defer backend.Srv.Close()
+	server, addr, err := startServer(r, serverBin, "server-restart1")
+	if err != nil {
+		r.Broken("proxy-restart lane: " + err.Error())
+		return
+	}
+	defer func() { server.Kill() }()
+	agent, err := startAgent(r, agentBin, "agent-restart", md, "http://"+addr+"/", backend.Srv.Addr(), "b1")
+	if err != nil {
+		r.Broken("proxy-restart lane: " + err.Error())
+		return
+	}
+	defer agent.Kill()
+	if err := waitReady(addr, agent, server); err != nil {
+		r.Inconclusive("proxy-restart lane: " + err.Error())
+		return
+	}
+	type res struct {
+		tok string
+		err string
+		bad []string
+		ms  int64
+	}
+	batch := func(phase string, n int) []res {
+		out := make([]res, n)
+		var wg sync.WaitGroup
+		sem := make(chan struct{}, 8)
+		for i := 0; i < n; i++ {
+			wg.Add(1)
+			sem <- struct{}{}
+			go func(i int) {
+				defer wg.Done()
+				defer func() { <-sem }()
+				tok := fmt.Sprintf("s%d%s%d", r.Seed, phase, i)
+				cl := rawhttp.NewClient(addr, 15*time.Second)
+				defer cl.Close()
+				t0 := time.Now()
+				m, err := cl.Do(tokRequest("GET", tok, 300+i, 0, "h"+tok+".example", nil, nil), "GET")
+				x := res{tok: tok, ms: time.Since(t0).Milliseconds()}
+				if err != nil {
+					x.err = err.Error()
+				} else {
+					x.bad = checkTokResponse(m, "GET", tok, 300+i)
+				}
+				out[i] = x
+			}(i)
+		}
+		wg.Wait()
+		return out
+	}
+	n1, n2 := 40, 70
+	for _, x := range batch("before", n1) {
+		r.Case("proxy-restart|before")
+		if x.err != "" {
+			r.Inconclusive("proxy-restart lane: request " + x.tok + " before the restart got no response: " + x.err)
+			return
+		} else if len(x.bad) > 0 {
+			r.Violate("C01:client-saw-foreign-or-altered-response", fmt.Sprintf("client %s: %v", x.tok, x.bad), nil, nil)
+		}
+	}
+	// restart on the same port
+	server.Kill()
+	time.Sleep(100 * time.Millisecond)
+	port := addr[strings.LastIndexByte(addr, ':')+1:]
+	var s2 *core.Proc
+	for try := 0; try < 20 && s2 == nil; try++ {
+		p, err := r.StartProc("server-restart2", serverBin, []string{"--port=" + port}, "VERIF_HOOK_STATS="+filepath.Join(r.WorkDir, "hooks-server-restart2"))
+		if err == nil {
+			if _, werr := p.WaitLog(listenRe, 5*time.Second); werr == nil {
+				s2 = p
+				break
+			}
+			p.Kill()
+		}
+		time.Sleep(250 * time.Millisecond)
+	}
+	if s2 == nil {
+		r.Inconclusive("proxy-restart lane: could not restart the proxy on port " + port)
+		return
+	}
+	server = s2
+	// the agent finds the new process by itself (its back-off is capped at ~3 s)
+	polled := regexp.MustCompile(`Reporting pending requests`)
+	answered, lost := 0, 0
+	var firstLost res
+	for _, x := range batch("after", n2) {
+		r.Case("proxy-restart|after")
+		switch {
+		case x.err != "":
+			lost++
+			if firstLost.tok == "" {
+				firstLost = x
+			}
+		case len(x.bad) > 0:
+			r.Violate("C01:client-saw-foreign-or-altered-response:after-proxy-restart", fmt.Sprintf("client %s: %v", x.tok, x.bad), nil, nil)
+		default:
+			answered++
+		}
+	}
+	r.Add("requests_answered_after_a_proxy_restart", answered)
+	if lost > 0 {
+		if answered > 0 && polled.MatchString(s2.Log()) {
+			r.Violate("C01:no-response:after-proxy-restart", fmt.Sprintf("after the proxy had been restarted (agent kept running), %d of %d clients got no response within 15 s while %d others were answered, e.g. %s (%d ms): %s", lost, n2, answered, firstLost.tok, firstLost.ms, firstLost.err), nil, nil)
+		} else {
+			r.Inconclusive(fmt.Sprintf("proxy-restart lane: %d of %d clients unanswered after the restart and %d answered (agent polling the new process: %v)", lost, n2, answered, polled.MatchString(s2.Log())))
+		}
+	}
+	judgeProcs(r, true, agent)
 }
